@@ -49,7 +49,8 @@ func (f FilterFlag) String() string {
 	}
 
 	var list []string
-	for flag, name := range filterFlagNames {
+	for _, flag := range []FilterFlag{FilterFlagTSync, FilterFlagLog} {
+		name := filterFlagNames[flag]
 		if f&flag != 0 {
 			f ^= flag
 			list = append(list, name)
